@@ -352,6 +352,10 @@ def run(prog: Program, rep: Report, tier: str) -> None:
     doc_agreement(prog, rep)
     # the last file is completed (particle variables written) only when the last write is recognised as
     # the last one: the predicted number of records must equal the number of trigger hits
+    rep.rule("R06.9", "a sparse record holds only living particles: State.compactify removes the dead whenever the state holds any (shared with C05 R05.3)", 1)
+    from . import c05
+
+    c05.dead_removed(prog, rep, "R06.9")
     rep.rule("R06.8", "file completion: predicted number of records = number of writes, for any duration (shared with C07 R07.1/R07.2)", 6)
     from . import c07
 
